@@ -334,6 +334,9 @@ func interpCases(c *Ctx, n int, tweak func(cfg *GenCfg, i int), post func(s *Sce
 		case "nestedKept":
 			prog = g.nestedKeptProgram()
 			c.count("directed:nestedKept")
+		case "zeroShare":
+			prog = g.zeroShareProgram()
+			c.count("directed:zeroShare")
 		case "originOtherAsset":
 			prog = g.originOtherAssetProgram(cfg.OneSend)
 			c.count("directed:originOtherAsset")
@@ -504,6 +507,8 @@ func init() {
 				cfg.Directed = "capVarReuse"
 			case 12, 17:
 				cfg.Directed = "originOtherAsset"
+			case 3:
+				cfg.Directed = "zeroShare"
 			}
 		}, nil)
 	}
